@@ -55,6 +55,10 @@ fn logical_contents(ins: &Inflights) -> Vec<u64> {
 }
 
 pub fn run_sequence(o: &mut CompOutcome, cap0: usize, ops: &[Op], keep_sample: bool) {
+    super::guarded(o, "C18", &|| format!("cap0 {} ops {:?}", cap0, ops), &mut |o| run_sequence_inner(o, cap0, ops, keep_sample));
+}
+
+fn run_sequence_inner(o: &mut CompOutcome, cap0: usize, ops: &[Op], keep_sample: bool) {
     o.cases += 1;
     let mut ins = Inflights::new(cap0);
     let mut m = Model { q: VecDeque::new(), cap: cap0, pending: None, next: 10, max_cap: cap0 };
